@@ -203,6 +203,78 @@ def build_spec(frame, events, deco, pid="P1"):
 
 
 # ---------------------------------------------------------------------------------------------
+# magnitude dimension: the same small parts at large tick values
+
+MAG_FACTORS = [1, 480, 10080, 302400]   # every time and every quarter duration of the frame is multiplied by the factor
+MAG_BOUNDS = [["2^24", 2 ** 24], ["2^30", 2 ** 30], ["max", 2 ** 31 - 1]]  # where the late section lies (None: no late section)
+MAG_MAX_QUARTERS = 2 ** 16              # longest distance of the late section from the start, in quarters
+MAG_FRAMES = [["34pk", ["c", 2], "chg"], ["24-68", ["c", 2], "one"], ["68pk", ["c", 4], "chg"],
+              ["34-24", ["b", 2, 3], "chg"], ["22", ["c", 1], "none"], ["nots", ["c", 2], "late"],
+              ["44one", ["c", 3], "one"], ["nomeas", ["m", 4, 2], "late"], ["34", ["c", 6], "one"],
+              ["24-68", ["b", 6, 4], "chg"]]
+
+
+def mag_offset(frame, factor, bound):
+    """start of the late section in (multiplied) divisions: a whole number of quarters (of the last quarter
+    duration) after time 0, such that
+      bound '2^24' / '2^30': that power of two lies within a quarter after the middle of the late section (the
+                             frame's grid shifted by the offset), so that grid points lie on either side of it;
+      bound 'max':           the late section ends within a quarter before 2^31 - 1 (the largest value of the
+                             int32 division columns);
+    None when there is no late section (bound None)"""
+    if bound is None:
+        return 0
+    B = dict((a, b) for a, b in MAG_BOUNDS)[bound]
+    q = frame["divs"][-1][1] * factor
+    span = frame["span"] * factor
+    if bound == "max":
+        return (B - span) // q * q
+    return (B - span // 2) // q * q
+
+
+def mag_levels(frame):
+    """[factor, bound] combinations for a frame: without late section every factor > 1 (factor 1 is the unmultiplied
+    part of the other spaces); with one every factor x bound whose late section is at most MAG_MAX_QUARTERS
+    quarters after the start (the beat and quarter columns are float32: onsets one division of the frame apart
+    stay distinct there) and begins after the end of the multiplied frame"""
+    out = [[k, None] for k in MAG_FACTORS if k > 1]
+    for bname, _b in MAG_BOUNDS:
+        for k in MAG_FACTORS:
+            d = mag_offset(frame, k, bname)
+            if frame["span"] * k <= d <= MAG_MAX_QUARTERS * frame["divs"][-1][1] * k:
+                out.append([k, bname])
+    return out
+
+
+def mag_events(frame):
+    """(note-like events, rest events) of the magnitude space: a one-cell note on every grid cell, a tie chain of
+    two cells from every grid point, a grace note on every grid point but the last, one note over the whole grid;
+    a one-cell rest on every grid cell"""
+    n = len(frame["grid"])
+    notes = [["n", i, i + 1] for i in range(n - 1)] + [["t", i, i + 2] for i in range(n - 2)]
+    notes += [["g", i, i] for i in range(n - 1)] + [["n", 0, n - 1]]
+    rests = [["r", i, i + 1] for i in range(n - 1)]
+    return notes, rests
+
+
+def magnify_spec(spec, factor, offset, late):
+    """part spec with every time and quarter duration multiplied by `factor`; the notes / rests of the events whose
+    index is in `late` (ids n<k>, n<k><letter>, r<k>) are moved `offset` divisions later"""
+    import re
+
+    out = {"id": spec["id"], "divs": [[t * factor, q * factor] for t, q in spec["divs"]], "objs": []}
+    for o in spec["objs"]:
+        o = dict(o)
+        m = re.match(r"^[nr](\d+)", o.get("id") or "")
+        sh = offset if (m is not None and int(m.group(1)) in late) else 0
+        for x in ("s", "e"):
+            if o.get(x) is not None:
+                o[x] = o[x] * factor + sh
+        out["objs"].append(o)
+    return out
+
+
+# ---------------------------------------------------------------------------------------------
 # flags
 
 NOTE_FLAGS = ["include_pitch_spelling", "include_key_signature", "include_time_signature",
